@@ -193,6 +193,35 @@ theorem uniqF_snocNode {pr : List Row} {nf : Bid → List Row} (h : UniqF pr nf)
   · simp only [hc, if_false] at hr'
     exact h.procNode c r hr r' hr'
 
+/-- a job waiting or running on a node is on no other node -/
+theorem node_job_unique {s : Sys} (hi : NodeInv s) {p p' : Pid} {a a' : Bool} {n n' : NodeP} {j : JobId}
+    (hp : s.procs p = .node a n) (hp' : s.procs p' = .node a' n')
+    (hj : j ∈ n.queued ∨ j ∈ n.running) (hj' : j ∈ n'.queued ∨ j ∈ n'.running) : p = p' := by
+  obtain ⟨b, hb, hh, -, hq, hr⟩ := hi.ofBatch p a n hp
+  obtain ⟨b', hb', hh', -, hq', hr'⟩ := hi.ofBatch p' a' n' hp'
+  have h1 : j ∈ b.jobs := hj.elim (hq j) (hr j)
+  have h2 : j ∈ b'.jobs := hj'.elim (hq' j) (hr' j)
+  have hbb : b = b' := mem_unique_batch hi.batch.jobsNodup hb hb' h1 h2
+  subst hbb
+  have : n.hid = n'.hid := by rw [hh] at hh'; exact Option.some.inj hh'
+  exact hi.oneRunner p p' a a' n n' hp hp' this
+
+theorem uniqN_clear {nf : Bid → List Row} (h : UniqN nf) (b : Bid) :
+    UniqN (fun c => if c = b then [] else nf c) := by
+  obtain ⟨h2, h4⟩ := h
+  refine ⟨?_, ?_⟩
+  · intro c
+    by_cases hc : c = b
+    · simp [hc]
+    · simp only [hc, if_false]; exact h2 c
+  · intro c d hcd r hr r' hr'
+    by_cases hc : c = b
+    · simp [hc] at hr
+    · by_cases hd : d = b
+      · simp [hd] at hr'
+      · simp only [hc, hd, if_false] at hr hr'
+        exact h4 c d hcd r hr r' hr'
+
 /-- the files of the initial state -/
 theorem uniqF_nil : UniqF [] (fun _ => []) := by
   refine ⟨by simp, by simp, ?_, ?_⟩ <;> simp
